@@ -437,7 +437,7 @@ def run(chk, pid, n_sim=None, depth=None, init_units=(0, 1), every=1):
     import multiprocessing as mp
     _W = W = World(want_bins=(pid == 'C19'))
     stats = {'histories': 0, 'foreign_mismatch': 0, 'max_len': 0, 'by_len': {}}
-    n_sim = n_sim or (1500 if chk.quick else 20000)
+    n_sim = n_sim or (1500 if chk.quick else 6000)
     depth = depth or (5 if chk.quick else 7)
     items = []
     for iu in init_units:
